@@ -196,6 +196,20 @@ def check(ctx):
     # the regenerated tables) against the real parser
     plain = [t for t, _, _ in progs if "`define" not in t and "`include" not in t and len(t) < 1500]
     pegexec.correspond(ctx, [("sv", t) for t in plain[:len(FIXED)] + r.sample(plain, min(len(plain), 80 if q else 500))], "c13peg", minimum=60)
+    # the words each standard adds, by name from IEEE 1800-2017 22.14 (not from the code's tables; the same lists as in
+    # C13_what_each_standard_adds): reserved inside the region of the standard that adds them, identifiers in the one before
+    ADDED = [("1364-1995", "1364-2001-noconfig", ["automatic", "endgenerate", "generate", "genvar", "localparam", "noshowcancelled",
+                                                   "pulsestyle_ondetect", "pulsestyle_onevent", "showcancelled", "signed", "unsigned"]),
+             ("1364-2001-noconfig", "1364-2001", ["cell", "config", "design", "endconfig", "incdir", "include", "instance", "liblist", "library", "use"]),
+             ("1364-2001", "1364-2005", ["uwire"]),
+             ("1800-2005", "1800-2009", ["accept_on", "checker", "endchecker", "eventually", "global", "implies", "let", "nexttime", "reject_on",
+                                         "restrict", "s_always", "s_eventually", "s_nexttime", "s_until", "s_until_with", "strong", "sync_accept_on",
+                                         "sync_reject_on", "unique0", "until", "until_with", "untyped", "weak"]),
+             ("1800-2009", "1800-2012", ["implements", "interconnect", "nettype", "soft"])]
+    for before, spec, ws in ADDED:
+        for w in ws:
+            progs.append(("`begin_keywords \"%s\"\nmodule m; wire %s; endmodule\n`end_keywords\n" % (spec, w), False, [w]))
+            progs.append(("`begin_keywords \"%s\"\nmodule m; wire %s; endmodule\n`end_keywords\n" % (before, w), True, [w]))
     cases = []
     for i, (t, exp, _) in enumerate(progs):
         c = Case("k%d" % i)
